@@ -21,8 +21,8 @@ type c26 struct {
 
 func init() { fw.Register(&c26{Base: Base{Id: "C26", Lvl: "exploration"}}) }
 
-func (p *c26) Setup(env *fw.Env) error { p.Env = env; return nil }
-func (p *c26) Case(i int) fw.Case     { return fw.Case{} }
+func (p *c26) Setup(env *fw.Env) error  { p.Env = env; return nil }
+func (p *c26) Case(i int) fw.Case       { return fw.Case{} }
 func (p *c26) Run(c fw.Case, r *fw.Rec) {}
 
 func (p *c26) Rule() string {
